@@ -330,7 +330,17 @@ def run(ctx: Ctx) -> None:
                 else:
                     rep.bad("C01.R5", f.qname, desc, f.loc(st), [f"no `return {var}` is reached by `{unparse(st, 50)}`"], stmt_key(st) + "ret", what="the computed value is not what is returned")
         has = [h for h in has if any(t.kind == "test" and t.ast is not None and any(x is h for x in ast.walk(t.ast)) for t in cfg.nodes)]
+        n_hit = 0
         for h in has:
+            tb = [b for b in cfg.nodes if b.kind == "branch" and b.label == "T" and b.ast is not None and any(x is h for x in ast.walk(b.ast))]
+            served = [fb for fb in fetch if tb and dominated(ctx, f, fb, tb) is None]
+            if not served and n_hit + len([x for x in has if x is not h]) > 0 and any(
+                    [b2 for b2 in cfg.nodes if b2.kind == "branch" and b2.label == "T" and b2.ast is not None and any(x is h2 for x in ast.walk(b2.ast))]
+                    and any(dominated(ctx, f, fb, [b2 for b2 in cfg.nodes if b2.kind == "branch" and b2.label == "T" and b2.ast is not None and any(x is h2 for x in ast.walk(b2.ast))]) is None for fb in fetch)
+                    for h2 in has if h2 is not h):
+                # a presence test that serves no blob (a debugging census of the present blobs ...) is not the hit test of the memo protocol: another test is
+                continue
+            n_hit += 1
             n5 += 1
             k = h.args[0] if h.args else None
             desc = f"the key fetched on a hit is the key tested by `{unparse(h, 40)}`"
@@ -338,7 +348,6 @@ def run(ctx: Ctx) -> None:
             for fb in fetch:
                 kb = fb.args[0] if fb.args else None
                 if isinstance(k, ast.Name) and isinstance(kb, ast.Name) and k.id == kb.id and set(fl.root_defs(k)) == set(fl.root_defs(kb)):
-                    tb = [b for b in cfg.nodes if b.kind == "branch" and b.label == "T" and b.ast is not None and any(x is h for x in ast.walk(b.ast))]
                     if dominated(ctx, f, fb, tb) is None:
                         ok = True
             if ok:
